@@ -832,7 +832,11 @@ class Gen:
             t, v, cls = self.int_arg(32)
             return t, [('v', self.value_bytes(v, 4, False), cls)]
         if kind == 'dq':
-            # MANUAL-SILENT: "DQ: double precision (64 bits)" - integer arguments are not described
+            # "DQ: double precision (64 bits)" - integer arguments are not described, but they are accepted, and "BIGENDIAN ... for the
+            # instructions DB, DW, DD, DQ, and DT" leaves one reading for them: the 64-bit two's complement value, LSB first unless big-endian
+            if not self.fixed and rng.random() < 0.3:
+                v = rng.choice([rng.randrange(0, 1 << 62), 0x0123456789abcdef, rng.randrange(-(1 << 62), 0), 1, -1, rng.randrange(1 << 31, 1 << 34)])
+                return fmt_int(rng, v, self.tgt.hexs), [('v', self.value_bytes(v, 8, False), 'int64')]
             x, cls = self.pf('double')
             return fmt_float(x), [('v', ieee_bytes(x, 'double', False), cls)]
         if kind == 'dt':
@@ -1090,6 +1094,7 @@ class Gen:
         badidx = rng.randrange(nargs) if bad else -1
         args = []
         bytevals = []
+        force_int = False
         for i in range(nargs):
             s0 = len(it.slots)
             if kind in ('word', 'long'):
@@ -1115,14 +1120,20 @@ class Gen:
                     args.append(fmt_int(rng, v, None))
                     it.errcls = cls
                     continue
-                if rng.random() < 0.35:
+                if rng.random() < 0.35 and not force_int:
                     last = (i == nargs - 1)
                     t, codes = self.string_arg(1, 6)
                     if not last and len(codes) % 2:
-                        t, codes = self.string_arg(2, 2)
+                        # an odd string followed by another *string* is the silent case; followed by an integer there is one reading only:
+                        # an integer has the width of a word, so the half-filled word is closed and the integer gets the next one
+                        if rng.random() < 0.5 and i + 1 != badidx:
+                            force_int = True
+                        else:
+                            t, codes = self.string_arg(2, 2)
                     args.append(t)
                     self.packed_units(it, [(c, 'string') for c in codes], 2, False, None)
                 else:
+                    force_int = False
                     t, v, cls = self.int_arg(16, allow_char=False)
                     args.append(t)
                     it.slots += self.unit_bytes(twos(v, 16))
@@ -1327,6 +1338,7 @@ class Gen:
             # "each integer argument obtains its own word and may take values from -32768...+65535";
             # "strings will always be packed".  MANUAL-SILENT: how an odd-length string is followed by
             # further arguments -> odd strings only as the last argument.
+            force_int = False
             for i in range(nargs):
                 s0 = len(it.slots)
                 if i == badidx:
@@ -1334,14 +1346,19 @@ class Gen:
                     args.append(fmt_int(rng, v, self.tgt.hexs))
                     it.errcls = cls
                     continue
-                if rng.random() < 0.3:
+                if rng.random() < 0.3 and not force_int:
                     last = (i == nargs - 1)
                     t, codes = self.string_arg(1, 6)
                     if not last and len(codes) % 2:
-                        t, codes = self.string_arg(2, 2)
+                        # followed by an integer ("each integer argument obtains its own word") the half-filled word is closed: one reading only
+                        if rng.random() < 0.5 and i + 1 != badidx:
+                            force_int = True
+                        else:
+                            t, codes = self.string_arg(2, 2)
                     args.append(t)
                     self.packed_units(it, [(c, 'string') for c in codes], 2, False, None)
                 else:
+                    force_int = False
                     t, v, cls = self.int_arg(16, allow_char=False)
                     args.append(t)
                     it.slots += self.unit_bytes(twos(v, 16))
